@@ -17,6 +17,11 @@ Legs (DESIGN 3.3):
       conversions, all operators x 3 floating types, all truth-test contexts, mixed-type operands and floating constants,
       on the boundary classes of the property text; raw object bytes must agree.  chibicc != gcc is a VIOLATION (there is
       no known region any more: the three former findings were repaired in /repo); gcc != python spec is a broken tie.
+  (e) chains of conversions (checklib/c02_chain.py): what gen_expr does with NESTED ND_CAST nodes.  Text: generated chains of
+      1-4 conversions in `return`, assignment and `?:` contexts against Model/FpChain.lean (one cast() per node, nothing
+      elided: the tie of C02_cast_chain).  Execution: chains of 2-4 conversions, explicit and implicit (initialisation,
+      return, argument passing, ?: with mixed operand types, compound assignment) on boundary values per link, chibicc vs gcc
+      vs the composition of the python spec.
 """
 import os, json, hashlib
 from fractions import Fraction
@@ -24,6 +29,7 @@ from concurrent.futures import ThreadPoolExecutor
 from .framework import *
 from .c02_fp import *
 from . import c02_oracle as O
+from . import c02_chain as CH
 
 PROPERTY = 'C02'
 GEN_MODULES = ['commontype', 'casttable', 'fpliteral']
@@ -808,6 +814,11 @@ def run_incdec(ctx, corr):
     corr.sample({'inc/dec': {'operands per type': len(values['f32']), 'forms': ['x++', 'x--', '++x', '--x']}})
 
 
+def run_chains(ctx, corr):
+    """chains of 2-4 conversions, explicit and implicit, executed (checklib/c02_chain.py)"""
+    CH.run_chain_oracle(ctx, corr, compile_run, O.parse_output, violation, describe)
+
+
 def run_extras(ctx, corr):
     """compound assignment with mixed types, default argument promotions, prototypes, static initialisers with conversions,
     bit-field targets, sizeof of mixed expressions, NaN in every relational operator: one fixed program"""
@@ -850,12 +861,14 @@ def correspond(ctx, corr):
                  'counted).  non-trivial = some operand is '
                  'not a non-negative integer below 2^15 (the kind of value the suite samples); distinct = by (operation, types, operand bits).')
     run_text_tie(ctx, corr)
+    CH.run_chain_tie(ctx, corr)
     run_contracts(ctx, corr)
     run_literal_model(ctx, corr)
     run_conversions(ctx, corr)
     run_operators(ctx, corr)
     run_contexts(ctx, corr)
     run_mixed(ctx, corr)
+    run_chains(ctx, corr)
     run_constants(ctx, corr)
     run_incdec(ctx, corr)
     run_extras(ctx, corr)
@@ -866,7 +879,7 @@ def search(ctx, broken, corr):
     was = ctx.thorough
     ctx.thorough = True
     try:
-        for leg in (run_conversions, run_operators, run_contexts, run_mixed, run_constants, run_incdec):
+        for leg in (run_chains, run_conversions, run_operators, run_contexts, run_mixed, run_constants, run_incdec):
             c2 = Corr()
             leg(ctx, c2)
             for v in c2.violations:
